@@ -89,6 +89,24 @@ def stream_of(sim):
     return b
 
 
+RESULT_MARK = "@@C19RESULT@@"
+
+
+def emit(obj):
+    """the library prints to the same stdout (printf without trailing newline, flushed at odd times): start a fresh line and tag the record"""
+    txt = json.dumps(obj)
+    path = os.environ.get("C19_RESULT_FILE")
+    if path and not (len(sys.argv) > 1 and sys.argv[1] == "client"):
+        try:                                     # the harness reads the record from its own file: nothing else writes there
+            with open(path + ".tmp", "w") as f:
+                f.write(txt)
+            os.replace(path + ".tmp", path)
+        except OSError:
+            pass
+    sys.stdout.write("\n" + RESULT_MARK + txt + "\n")
+    sys.stdout.flush()
+
+
 def sha(b):
     return hashlib.sha256(b).hexdigest()[:24]
 
@@ -283,7 +301,7 @@ def mode_conc(p):
             for t in ths: t.start()
             for t in ths: t.join(p.get("timeout", 120))
             if any(t.is_alive() for t in ths):
-                print(json.dumps({"hang": True, "round": rd})); sys.stdout.flush(); os._exit(3)
+                emit({"hang": True, "round": rd}); os._exit(3)
             rounds.append(conc)
         res = {"n": len(specs), "sequential": {str(k): v for k, v in seq.items()}, "baseline_nondeterministic": [k for k in seq if seq[k] != seq2[k]], "mismatch": [], "errors": []}
         for k in seq:
@@ -400,7 +418,7 @@ def mode_client():
     for t in ths: t.start()
     for t in ths: t.join()
     out.close()
-    print(json.dumps({"errors": nerr[0]}))
+    emit({"errors": nerr[0]})
 
 
 def start_clients(port, workdir, delays, pauses, others):
@@ -433,7 +451,9 @@ def stop_clients(pr, outpath, stopfile):
     while pos + 8 <= len(data):
         n, = struct.unpack_from("<Q", data, pos); pos += 8
         bodies.append(data[pos:pos + n]); pos += n
-    try: errs = json.loads((o or b"{}").decode().strip().splitlines()[-1]).get("errors", 0)
+    try:
+        txt = (o or b"").decode(errors="replace")
+        errs = json.loads(txt[txt.rindex(RESULT_MARK) + len(RESULT_MARK):].splitlines()[0]).get("errors", 0)
     except Exception: errs = -1
     for f in (outpath, stopfile):
         try: os.remove(f)
@@ -812,7 +832,7 @@ def mode_keyboard(p):
     sim.integrate(tmax)
     th.join(60)
     if th.is_alive():
-        print(json.dumps({"hang": True})); sys.stdout.flush(); os._exit(3)
+        emit({"hang": True}); os._exit(3)
     bbits = particle_bits(sim)
     res = {"integrator": spec["integrator"], "paused": info["paused"], "single_steps": info["single_steps"], "multi_steps": info["multi_steps"],
            "pulls_running": info["pulls_running"], "other_keys_sent": info.get("other_keys_sent", 0), "client_error": info["err"], "ref_steps": ref_steps,
@@ -935,7 +955,7 @@ def mode_hammer(p):
             for t in ths: t.start()
             for t in ths: t.join(120)
             if any(t.is_alive() for t in ths):
-                print(json.dumps({"hang": True, "group": g["name"]})); sys.stdout.flush(); os._exit(3)
+                emit({"hang": True, "group": g["name"]}); os._exit(3)
             res["runs"] += len(specs)
             for k in seq:
                 if conc.get(k) != seq[k] and len(res["mismatch"]) < 5:
@@ -1091,7 +1111,7 @@ def mode_incomplete(p):
         sim.stop_server(); done[0] = True
     th = threading.Thread(target=stop, daemon=True); th.start(); th.join(5)
     res["stop_server_returns"] = done[0]
-    print(json.dumps(res)); sys.stdout.flush()
+    emit(res)
     os._exit(0)
 
 
@@ -1286,6 +1306,5 @@ if __name__ == "__main__":
         mode_client(); sys.stdout.flush(); os._exit(0)
     params = json.load(sys.stdin)
     res = {"conc": mode_conc, "server": mode_server, "torn": mode_torn, "w512": mode_w512, "fdclose": mode_fdclose, "steps": mode_steps, "keyboard": mode_keyboard, "coresident": mode_coresident, "teardown": mode_teardown, "hammer": mode_hammer, "compress": mode_compress, "history": mode_history, "latestart": mode_latestart, "incomplete": mode_incomplete, "lifecycle": mode_lifecycle}[mode](params)
-    print(json.dumps(res))
-    sys.stdout.flush()
+    emit(res)
     os._exit(0)
